@@ -833,6 +833,8 @@ impl Family for RelstoreFamily {
             "family relstore/C11/{}: base scenario i = (n = p*q with p = q = 3 mod 4 chosen by the generator, a real FBase, a pool of 3-14 large primes, \
              20-{} add operations: complete / single-large / double-large relations constructed from square roots the harness computes itself, in \
              chain/star/cycle/doubles-first/mixed large-prime graphs with duplicates and p=q doubles), dealt to 1-8 simulated client threads plus 0-2 reader threads; \
+             (large primes up to 2^32; one scenario in 32 instead replays a harvested history: 100-700 (quick) / up to 4000 (thorough) relations that a real single-threaded SIQS/MPQS/QS run \
+             on a 48-86-bit semiprime handed to add(), in sieve order / shuffled / reversed / doubles first, 2-10 % duplicated); \
              one in-order single-client reference history, then {} schedules (random/sticky/PCT/round-robin, stalls before lock acquisitions). \
              Non-trivial = at least two simulated threads runnable at some step or a fault fired; distinct = distinct interleaving fingerprint.",
             tier.name(),
